@@ -14,6 +14,7 @@ Definition src_same (a b : import_outcome (text -> list text -> plugin_result)) 
   end.
 
 Definition env_equiv (c : config) (e1 e2 : env) : Prop :=
+  registry e1 = registry e2 /\
   (forall a b, comp_name e1 a b = comp_name e2 a b) /\
   (allow_plugins c = true ->
      (forall m, ud_import e1 m = ud_import e2 m) /\ (forall m, src_same (src_import e1 m) (src_import e2 m)) /\
@@ -24,7 +25,7 @@ Section Equiv.
   Hypothesis H : env_equiv c e1 e2.
 
   Lemma display_comp_equiv comp cr : display_comp e1 comp cr = display_comp e2 comp cr.
-  Proof. unfold display_comp. destruct H as [Hc _]. rewrite Hc. reflexivity. Qed.
+  Proof. unfold display_comp. destruct H as (_ & Hc & _). rewrite Hc. reflexivity. Qed.
 
   Lemma base_fields_equiv h cr key : base_fields e1 h cr key = base_fields e2 h cr key.
   Proof. unfold base_fields. rewrite display_comp_equiv. reflexivity. Qed.
@@ -45,7 +46,7 @@ Section Equiv.
   Lemma ud_value_equiv cr comp sub ver d : ud_value_of e1 c cr comp sub ver d = ud_value_of e2 c cr comp sub ver d.
   Proof.
     unfold ud_value_of. destruct (is_bmc cr && (comp =? 8192)); [reflexivity|].
-    destruct (allow_plugins c) eqn:Ep; [|reflexivity]. destruct H as [_ Hp]. destruct (Hp Ep) as (Hu & _ & _).
+    destruct (allow_plugins c) eqn:Ep; [|reflexivity]. destruct H as (_ & _ & Hp). destruct (Hp Ep) as (Hu & _ & _).
     unfold custom_value. rewrite Hu. reflexivity.
   Qed.
 
@@ -53,7 +54,7 @@ Section Equiv.
   Proof. unfold render_ud. rewrite base_fields_equiv, ud_value_equiv. reflexivity. Qed.
 
   Lemma proc_desc_equiv cr p : allow_plugins c = true -> proc_desc e1 cr p = proc_desc e2 cr p.
-  Proof. intros Ep. unfold proc_desc. destruct H as [_ Hp]. destruct (Hp Ep) as (_ & _ & Hc). rewrite Hc. reflexivity. Qed.
+  Proof. intros Ep. unfold proc_desc. destruct H as (_ & _ & Hp). destruct (Hp Ep) as (_ & _ & Hc). rewrite Hc. reflexivity. Qed.
 
   Lemma render_callout_equiv cr co : render_callout e1 c cr co = render_callout e2 c cr co.
   Proof.
@@ -71,14 +72,19 @@ Section Equiv.
 
   Lemma src_details_equiv cr a ws : allow_plugins c = true -> src_details e1 cr a ws = src_details e2 cr a ws.
   Proof.
-    intros Ep. unfold src_details. destruct H as [_ Hp]. destruct (Hp Ep) as (_ & Hs & _). specialize (Hs (src_module cr)).
+    intros Ep. unfold src_details. destruct H as (_ & _ & Hp). destruct (Hp Ep) as (_ & Hs & _). specialize (Hs (src_module cr)).
     destruct (src_import e1 (src_module cr)), (src_import e2 (src_module cr)); cbn in Hs; try contradiction; try reflexivity.
     subst. reflexivity.
   Qed.
 
+  Lemma error_details_equiv ws a : error_details e1 ws a = error_details e2 ws a.
+  Proof. unfold error_details. destruct H as (Hr & _). rewrite Hr. reflexivity. Qed.
+
   Lemma render_src_equiv h cr s : render_src e1 c h cr s = render_src e2 c h cr s.
   Proof.
     unfold render_src. destruct (utf8_decode (s_ascii s)); [|reflexivity].
+    rewrite error_details_equiv.
+    match goal with |- match ?X with Some _ => _ | None => _ end = _ => destruct X; [|reflexivity] end.
     rewrite base_fields_equiv.
     assert (Hc: match s_callouts s with
                 | None => Some []
